@@ -195,7 +195,7 @@ func (x *Exec) globalKey(v *types.Var) string {
 		if isErrorType(v.Type()) {
 			return x.vc.errVar(v.Pkg().Name() + "." + v.Name())
 		}
-		return x.mkValue(v.Type(), nil, "glob."+v.Name(), func(s *Sort, p string) Term { return x.vc.freshBase(p, s) })
+		return x.mkValue(v.Type(), nil, "glob."+v.Name(), x.baseLeaf)
 	})
 	return key
 }
@@ -221,7 +221,7 @@ func isMainLike(p *types.Package) bool { _, ok := mainPkgPaths.Load(p.Path()); r
 func (x *Exec) fieldKey(structT types.Type, f *types.Var) string {
 	key := "f:" + structName(structT) + "." + f.Name()
 	x.registerHeap(key, func() Value {
-		return x.mkValue(f.Type(), []*Sort{sortRef}, key[2:], func(s *Sort, p string) Term { return x.vc.freshBase(p, s) })
+		return x.mkValue(f.Type(), []*Sort{sortRef}, key[2:], x.baseLeaf)
 	})
 	return key
 }
@@ -229,7 +229,7 @@ func (x *Exec) fieldKey(structT types.Type, f *types.Var) string {
 func (x *Exec) boxKey(t types.Type) string {
 	key := "box:" + typeKey(t)
 	x.registerHeap(key, func() Value {
-		return x.mkValue(t, []*Sort{sortRef}, "box", func(s *Sort, p string) Term { return x.vc.freshBase(p, s) })
+		return x.mkValue(t, []*Sort{sortRef}, "box", x.baseLeaf)
 	})
 	return key
 }
@@ -243,7 +243,7 @@ func (x *Exec) mapKeys(mt *types.Map) (hasKey, valKey string) {
 	}
 	x.registerHeap(hasKey, func() Value { return x.vc.freshBase("maphas", sortArr(sortRef, sortArr(ks, sortBool))) })
 	x.registerHeap(valKey, func() Value {
-		return x.mkValue(mt.Elem(), []*Sort{sortRef, ks}, "mapval", func(s *Sort, p string) Term { return x.vc.freshBase(p, s) })
+		return x.mkValue(mt.Elem(), []*Sort{sortRef, ks}, "mapval", x.baseLeaf)
 	})
 	return
 }
@@ -1255,4 +1255,15 @@ func (x *Exec) makeMap(mt *types.Map, st *State) Value {
 	hs := x.getHeap(st, hasKey).(Term)
 	x.setHeap(st, hasKey, tStore(hs, r, zeroOf(hs.T.Elem)))
 	return r
+}
+
+
+// baseLeaf makes the base (initial, unknown) value of a heap leaf. The offset
+// of an unknown slice is normalised to 0: (arr, off, len) is observationally
+// the same as (arr', 0, len) under the value semantics used for slices.
+func (x *Exec) baseLeaf(s *Sort, p string) Term {
+	if strings.HasSuffix(p, ".$off") {
+		return zeroOf(s)
+	}
+	return x.vc.freshBase(p, s)
 }
